@@ -660,6 +660,9 @@ def truth(v):
         return truthy_fn(v.t)
     if isinstance(v, (SFunc, Opaque)):
         return True
+    if isinstance(v, SSet):
+        # non-empty: differs from the empty characteristic array
+        return v.arr != z3.K(v.elem.sort(), z3.BoolVal(False))
     if is_sym(v):
         raise Unsupported('truthiness of %r' % (v,))
     return bool(v)
